@@ -7,7 +7,7 @@ id="$1"; prop="$2"; out="$3"; shift 3
 cd /verif
 mkdir -p seeded/$id
 cp $out/patch.diff seeded/$id/patch.diff
-for f in demo.cc build.sh run.sh notes.md pipestream.hh; do [ -f $out/$f ] && cp $out/$f seeded/$id/; done
+for f in $(cd $out && find . -maxdepth 1 -type f -size -300k ! -name patch.diff ! -perm -u+x -o -maxdepth 1 -type f -name "*.sh" | sed 's#^\./##'); do cp $out/$f seeded/$id/; done
 rm -rf /tmp/seedtrees/$id; mkdir -p /tmp/seedtrees/$id/pristine /tmp/seedtrees/$id/mut
 git -C /repo archive HEAD | tar -x -C /tmp/seedtrees/$id/pristine
 git -C /repo archive HEAD | tar -x -C /tmp/seedtrees/$id/mut
@@ -21,6 +21,10 @@ if [ -f seeded/$id/build.sh ]; then
   if [ -n "$dp" ] && [ -n "$dm" ]; then
     ( timeout 600 $dp > /tmp/seedtrees/$id/run_p.log 2>&1 ); demo_p=$?
     ( timeout 600 $dm > /tmp/seedtrees/$id/run_m.log 2>&1 ); demo_m=$?
+  elif [ -f seeded/$id/run.sh ]; then
+    # the agent's own runner: builds against the tree given as $1 and runs the demonstration
+    ( cd seeded/$id && mkdir -p /tmp/agent_${id#S-} && timeout 900 sh ./run.sh /tmp/seedtrees/$id/pristine > /tmp/seedtrees/$id/run_p.log 2>&1 ); demo_p=$?
+    ( cd seeded/$id && timeout 900 sh ./run.sh /tmp/seedtrees/$id/mut > /tmp/seedtrees/$id/run_m.log 2>&1 ); demo_m=$?
   fi
 fi
 git -C /repo apply /verif/seeded/$id/patch.diff || { echo "SEEDED $id: cannot apply to /repo"; exit 3; }
